@@ -165,6 +165,30 @@ def self_join_through_shared_variable(q: ast.AST, **kw) -> bool:
     return False
 
 
+def aggregate_with_computed_seed(q: ast.AST, **kw) -> bool:
+    "Aggregate(seed, f) whose seed itself contains a sequence terminal (needs statements of its own)"
+    for n in ast.walk(q):
+        if call_name(n) == "Aggregate" and isinstance(n, ast.Call):
+            args = n.args if isinstance(n.func, ast.Attribute) else n.args[1:]
+            if args and any(call_name(m) in AGG_TERMINALS | {"Range"} for m in ast.walk(args[0])):
+                return True
+    return False
+
+
+def first_of_sequence_of_sequences(q: ast.AST, **kw) -> bool:
+    "First() of a Select whose lambda yields a sequence, or a First() result used as a sequence"
+    for n in ast.walk(q):
+        if call_name(n) == "First" and isinstance(n, ast.Call):
+            src = call_source(n)
+            if call_name(src) == "Select":
+                lam = call_lambda(src)
+                if lam is not None and (call_name(lam.body) in SEQ_OPS | {"Range"}):
+                    return True
+        if call_name(n) in SEQ_OPS | AGG_TERMINALS and isinstance(n, ast.Call) and call_name(call_source(n)) == "First":
+            return True
+    return False
+
+
 def always(q: ast.AST, **kw) -> bool:
     return True
 
@@ -180,6 +204,8 @@ PREDICATES: Dict[str, Callable[..., bool]] = {
     "true_division": true_division,
     "index_of_computed_sequence": index_of_computed_sequence,
     "self_join_through_shared_variable": self_join_through_shared_variable,
+    "aggregate_with_computed_seed": aggregate_with_computed_seed,
+    "first_of_sequence_of_sequences": first_of_sequence_of_sequences,
 }
 
 
